@@ -166,7 +166,7 @@ func c07Literal(src string, identLHS bool) (*rt.Node, error) {
 }
 
 func c07Strings(w *run.Worker) {
-	alpha := []string{"a", `"`, `'`, "`", `\`, "n", "x", "u", "U", "0", "1", "7", "8", "\n", "é", "\x00"}
+	alpha := []string{"a", `"`, `'`, "`", `\`, "n", "x", "u", "U", "0", "1", "7", "8", "\n", "é", "\x00", "\r"}
 	maxLen := 5
 	if w.Thorough {
 		maxLen = 6
@@ -242,7 +242,7 @@ func c07Strings(w *run.Worker) {
 func c07EscClass(body string) string {
 	i := strings.IndexByte(body, '\\')
 	if i < 0 {
-		for _, c := range []string{"\n", "\x00", `"`, `'`, "`", "é"} {
+		for _, c := range []string{"\n", "\r", "\x00", `"`, `'`, "`", "é"} {
 			if strings.Contains(body, c) {
 				return "contains-" + strconv.Quote(c)
 			}
@@ -513,7 +513,7 @@ func init() {
 	run.Register(&run.Check{
 		ID:    "C07",
 		Level: "model_checking",
-		Rule: "(A) every string body of length <=5 (thorough <=6) over the 16 symbols {a \" ' ` \\ n x u U 0 1 7 8 newline é NUL} between each of 5 quote styles, plus 37 longer escape forms; " +
+		Rule: "(A) every string body of length <=5 (thorough <=6) over the 17 symbols {a \" ' ` \\ n x u U 0 1 7 8 newline é NUL CR} between each of 5 quote styles, plus 37 longer escape forms; " +
 			"(B) all integers 2^k, 2^k+-1 (k<=64), 10^k, 10^k+-1, 0..1999 spelled decimal and 0x/0X x 8 sign prefixes; (C) every float spelling d[.d[d]][e[+-]d] over the whole exponent range, shortest and 17-digit spellings of +-2^k and neighbours, inf/nan in all letter cases, 20 malformed numbers; " +
 			"(D) true/false/nil/null in all letter-case variants; oracle: reference decoder written from the Go escape rules (single quotes like double quotes), strconv.ParseFloat as trusted arithmetic",
 		Assumptions: []string{"unspecified cells skipped and counted: other triple quote inside a raw string, hex literals >= 2^63, float overflow (rejected or +-Inf both accepted), back quote inside a back-quoted identifier"},
